@@ -93,7 +93,7 @@ SetFlag(st, f, neg) == [st EXCEPT !.flags = IF neg THEN @ \ {f} ELSE @ \cup {f}]
 RECURSIVE LookupName(_, _, _)
 LookupName(names, id, j) == IF j = 0 THEN -1 ELSE IF names[j][1] = id THEN names[j][2] ELSE LookupName(names, id, j - 1)
 NameIdx(st, id) == LookupName(st.names, id, Len(st.names))
-InitSt == [flags |-> {"u"}, cg |-> 0, names |-> <<>>, numref |-> FALSE]
+InitSt == [flags |-> {"u"}, cg |-> 0, names |-> <<>>, numref |-> FALSE, brefs |-> {}]     \* brefs = ExprTree::backrefs (groups some reference names)
 
 \* ---------- optional_whitespace ----------
 \* returns [ok, ix] or an error
@@ -246,7 +246,7 @@ RECURSIVE PRe(_, _, _, _), PAlts(_, _, _, _), PAltsMore(_, _, _, _, _), PBranch(
 PNumberedBackref(re, ix, st, mk) ==
    LET d == ParseDecimal(re, ix) IN
    IF d.ok /\ d.v >= 0 /\ d.v < BLen(re) \div 2
-   THEN Ok(d.end, [k |-> mk, n |-> d.v], [st EXCEPT !.numref = TRUE])
+   THEN Ok(d.end, [k |-> mk, n |-> d.v], [st EXCEPT !.numref = TRUE, !.brefs = @ \cup {d.v}])
    ELSE Err(BytePos(re, ix), "InvalidBackref")
 PNamedBackref(re, ix, st, open, close, rel, mk) ==
    LET p == ParseId(re, ix, open, close, rel) IN
@@ -257,7 +257,7 @@ PNamedBackref(re, ix, st, open, close, rel, mk) ==
                      ELSE IF ~num.ok THEN -9
                      ELSE IF ~num.neg THEN num.v                                     \* -2 = huge
                      ELSE IF num.v = -2 THEN -9 ELSE (IF st.cg - num.v + 1 >= 0 THEN st.cg - num.v + 1 ELSE -9)
-        IN IF group >= 0 /\ group < BLen(re) \div 2 THEN Ok(ix + p.skip, [k |-> mk, n |-> group], st)
+        IN IF group >= 0 /\ group < BLen(re) \div 2 THEN Ok(ix + p.skip, [k |-> mk, n |-> group], [st EXCEPT !.brefs = @ \cup {group}])
            ELSE Err(BytePos(re, ix), "InvalidGroupNameBackref")
 
 \* ---------- escapes ----------
@@ -547,5 +547,5 @@ Parse(re) ==
    LET r == PRe(re, 0, 0, InitSt) IN
    IF ~r.ok THEN r
    ELSE IF r.ix < Len(re) THEN Err(BytePos(re, r.ix), "GeneralParseError")
-   ELSE [ok |-> TRUE, e |-> r.e, names |-> r.st.names]
+   ELSE [ok |-> TRUE, e |-> r.e, names |-> r.st.names, brefs |-> r.st.brefs]
 =============================================================================
